@@ -58,6 +58,9 @@ M = [
     ("C18-no-copy", "C18", "xgcm/grid.py", r"mapped_kwargs = dict\(kwargs\)", "mapped_kwargs = kwargs"),
     ("C19-coords-from-input", "C19", "xgcm/grid_ufunc.py", r"for coord, da_coord in grid\._ds\.coords\.items\(\)\n(\s+)if all\(dim in res\.dims for dim in da_coord\.dims\)", r"for coord, da_coord in grid._ds.coords.items()\n\1if all(dim in res.dims for dim in da_coord.dims) and len(da_coord.dims) < 2"),
     ("C19-keep-coords-inverted", "C19", "xgcm/grid_ufunc.py", r"if not keep_coords:\n(\s+# TODO I don't like)", r"if keep_coords:\n\1"),
+    ("C20-metric-op-two-dims", "C20", "xgcm/grid.py", r"(matching_dim = \[di for di in all_dim if di in da\.dims\]\n\s+if len\(matching_dim\)) == 1:", r"\1 >= 1:"),
+    # (not in the catalogue, equivalent: dropping the `ax not in self.axes` test of _assign_face_connections or the
+    #  `metric_varname not in self._ds.variables` test of set_metrics - the lookups that follow raise KeyError anyway)
     ("C20-same-position-pass", "C20", "xgcm/grid.py", r'raise ValueError\(\n\s+f"From `\{pos\}` to `\{ax_to\}` is not a valid position "\n\s+f"shift for cumsum operation along axis \{ax\}\."\n\s+\)', "ax_boundary_width = {ax.name: (0, 0)}"),
 ]
 
